@@ -39,6 +39,7 @@ type Instance struct {
 	Depth   int
 	CallPos token.Pos
 	Results []*Var
+	Lit     *ast.FuncLit // the literal an inlined literal call runs
 	exit    *Node
 	nlits   int
 }
